@@ -561,7 +561,9 @@ func init() {
 						fmt.Sprintf("ref: %s", o.c.Refs[i].Sx().String()))
 					return
 				}
-				if b0 && !rb && !hasIsMethod(o.e) {
+				if b0 && !rb && !hasIsMethod(o.e) && !markAtUnknowing(o.e, r, hops[len(hops)-1]) {
+					// (a reference that holds a Mark layer and was last decoded by a process that does not know
+					// that layer carries the layer as an opaque wrapper: its forced mark cannot be honoured there)
 					m := ""
 					m = knownTextDiffJourney(r, hops)
 					o.fail(fmt.Sprintf("Is(e, ref %d) true locally but false once only the reference crossed hops %s (no Is method involved)", i, hopsStr(hops)), m,
@@ -1287,7 +1289,17 @@ func init() {
 				walk(k)
 			}
 			for _, p := range r.Fmt {
-				walk(p.R)
+				// an error argument is part of the error only where the constructor attaches its arguments
+				// (Newf / AssertionFailedf / Wrapf / NewAssertionErrorWithWrappedErrf) or wraps them (%w of
+				// fmt.Errorf); HandledWithMessagef, WithMessagef, WithHintf ... only print it
+				switch r.Op {
+				case "newf", "assertf", "wrapf", "newassertwrapped":
+					walk(p.R)
+				case "fmterrorf":
+					if p.Verb == "w" {
+						walk(p.R)
+					}
+				}
 			}
 		}
 		walk(o.c.R)
@@ -1304,7 +1316,9 @@ func init() {
 				var want []string
 				for he != nil {
 					for _, d := range errbase.GetSafeDetails(he).SafeDetails {
-						if len(d) > 2 && !strings.Contains(d, "\n") {
+						// (the "masked error: ..." line of an inner barrier is a rendering, recomputed by every
+						// process from what it decoded: a user type's SafeMessage is safe only where the type exists)
+						if len(d) > 2 && !strings.Contains(d, "\n") && !strings.Contains(d, "masked error:") {
 							want = append(want, d)
 						}
 					}
